@@ -274,6 +274,21 @@ class IffContainerChunkMixin():
             raise KeyError("Invalid IFF key.")
 
         next_offset = self.data_offset + self._get_actual_data_size()
+        subchunks = self.subchunks()
+        if subchunks:
+            # In damaged files the last subchunk can reach beyond the end of
+            # this container or lack its pad byte. Put the new chunk behind
+            # it, where subchunks() is going to look for it.
+            last_end = subchunks[-1].offset + subchunks[-1].size
+            if last_end > next_offset:
+                self._fileobj.seek(0, 2)
+                if last_end == self._fileobj.tell() + 1:
+                    self._fileobj.write(b"\x00")
+                if last_end <= self._fileobj.tell():
+                    declared_end = self.data_offset + self.data_size
+                    if last_end > declared_end:
+                        self._update_size(last_end - declared_end)
+                    next_offset = last_end
         size = self.HEADER_SIZE
         data_size = 0
         if data:
